@@ -144,6 +144,17 @@ Theorem C17_shutdown_kills_spawned :
 Proof. exact shutdown_kills_spawned. Qed.
 Print Assumptions C17_shutdown_kills_spawned.
 
+(* ... and that is ALL that can go wrong with shutdown(wait=False): if a process runs after it
+   has returned, then a cancel task of that call did run for the job, and the process was
+   spawned only after it (the F6 window below) *)
+Theorem C17_nowait_shutdown_only_late_spawn :
+  forall tmos waits sched st k j,
+    run (init tmos waits) sched = Some st -> nth_error waits k = Some false ->
+    returned st k = true -> running st j = true ->
+    exists pre mid post, sched = pre ++ LSdCancel k j :: mid ++ LPopen j true :: post.
+Proof. exact nowait_only_late_spawn. Qed.
+Print Assumptions C17_nowait_shutdown_only_late_spawn.
+
 (* REFUTED (defect F6, not repaired): "after shutdown no solver process keeps running" for
    shutdown(wait=False): cancel() is a no-op while the worker has not reached Popen yet, so a
    process is spawned after shutdown(wait=False) has returned (without any late acceptance)
